@@ -44,3 +44,15 @@ impl Parameters {
         self.wakers.len()
     }
 }
+
+impl ArcParameters {
+    /// Replacement for `ArcParameters::lock_guard` in the qrecovery stream-creation harnesses: the
+    /// real one clones the stored connection error on the Err path, which CBMC walks although no
+    /// connection error exists there. This version ASSERTS that the parameters are alive.
+    pub fn c11s_stub_lock_guard(&self) -> Result<ParametersGuard<'_>, Error> {
+        let guard = self.0.lock().unwrap();
+        assert!(guard.is_ok(), "no connection error in this harness");
+        Ok(ParametersGuard(guard))
+    }
+}
+
